@@ -34,6 +34,9 @@ pub enum Instr {
     BcastMax,
     /// key_by(x%2).map(v+1).drop_key
     KeyedMap,
+    /// group_by(x%2) + exact tumbling count window of 2 + sum (order dependent: only generated on
+    /// fully sequential configurations)
+    CountWin,
     Dup,
     Swap,
     Merge,
@@ -149,6 +152,13 @@ fn unary<O: Operator<Out = i64> + 'static>(s: Stream<O>, i: &Instr) -> DS<i64> {
                 .map(|(k, v)| enc_kv(k, v)),
         ),
         Instr::KeyedMap => erase(s.key_by(|x: &i64| x % 2).map(|(_, v)| v + 1).drop_key()),
+        Instr::CountWin => erase(
+            s.group_by(|x: &i64| x % 2)
+                .window(renoir::operator::window::CountWindow::tumbling(2))
+                .sum::<i64>()
+                .unkey()
+                .map(|(k, v)| enc_kv(k, v)),
+        ),
         Instr::Replay(rounds, body) => {
             let body = body.clone();
             let rounds = *rounds;
@@ -320,6 +330,18 @@ fn ref_unary(v: Vec<i64>, i: &Instr) -> Vec<i64> {
             }
         }
         Instr::KeyedMap => v.into_iter().map(|x| x + 1).collect(),
+        Instr::CountWin => {
+            let mut out = vec![];
+            for k in 0..2 {
+                let xs: Vec<i64> = v.iter().copied().filter(|x| x.rem_euclid(2) == k).collect();
+                for g in xs.chunks(2) {
+                    if g.len() == 2 {
+                        out.push(enc_kv(k, g[0] + g[1]));
+                    }
+                }
+            }
+            out
+        }
         Instr::Replay(rounds, body) => {
             let mut state = 0i64;
             for _ in 0..*rounds {
@@ -435,6 +457,7 @@ fn rep_unary(i: &Instr, r: Rep) -> Option<Rep> {
         | Instr::GbReduceMax
         | Instr::GbFoldAssoc
         | Instr::GbReduceAssoc
+        | Instr::CountWin
         | Instr::BcastMax => Rep::Unl,
         Instr::ReplOne | Instr::Fold | Instr::FoldAssoc | Instr::Reduce | Instr::ReduceAssoc => Rep::One,
         Instr::ReplLim2 => Rep::Lim2,
